@@ -19,9 +19,11 @@ EXPLANATION = (
     'and raise IndexError / TypeError; (d) the write primitives pass the '
     'caller\'s index to the raw list operation unchanged and short-circuit '
     'only on identity (never on equality); (e) batched list updates are '
-    'applied in descending KeyPath order.  Agreement of results with CPython '
+    'applied in descending KeyPath order; (f) every read view of a Dict (iter, '
+    'keys, values, items) is derived from one key iteration that yields each '
+    'stored key once.  Agreement of results with CPython '
     'over operation histories is differential by nature and not decided.')
-FLOORS = {'C02.a': 1, 'C02.b': 2, 'C02.c': 2, 'C02.d': 2, 'C02.e': 1}
+FLOORS = {'C02.a': 1, 'C02.b': 2, 'C02.c': 2, 'C02.d': 2, 'C02.e': 1, 'C02.f': 4}
 FILES = ['pyglove/core/symbolic/list.py', 'pyglove/core/symbolic/dict.py',
          'pyglove/core/symbolic/base.py']
 
@@ -245,6 +247,91 @@ def rule_e(ctx):
     ctx.info('C02.e', kp.fq, 'KeyPath.__lt__ is the order used (checked under C10)', kp.loc)
 
 
+def rule_f(ctx):
+  """One iteration order for every read view of a Dict (keys/values/items/iter
+  agree position by position, as for dict)."""
+  idx = ctx.index
+  def rets(f):
+    return [A.unparse(n.value) for n in ast.walk(f.node) if isinstance(n, ast.Return) and n.value is not None]
+  for name, want in (('__iter__', 'self.sym_keys()'), ('keys', 'self.sym_keys()'),
+                     ('items', 'self.sym_items()'), ('values', 'self.sym_values()')):
+    f = idx.lookup_method(S.DICT, name)
+    if f is None or idx.enclosing_class(f).fq != S.DICT:
+      ctx.ob('C02.f', f'{S.DICT}.{name}', False,
+             f'Dict.{name} is the symbolic view {want}', '', f'Dict.{name} is inherited from dict: it iterates the raw '
+             'storage order, which differs from the schema order used by the other views')
+      continue
+    r = rets(f)
+    ys = [n for n in ast.walk(f.node) if isinstance(n, (ast.Yield, ast.YieldFrom))]
+    ok = r == [want] and not ys
+    ctx.ob('C02.f', f.fq, ok, f'Dict.{name} is the symbolic view {want} (all read views share one iteration order)',
+           f.loc, f'returns {r}: keys/values/items/iteration can disagree position by position')
+  # values / items are derived from the key iteration, looking up the loop key
+  for name in ('sym_values', 'sym_items'):
+    f = idx.lookup_method(S.DICT, name)
+    loops = [n for n in ast.walk(f.node) if isinstance(n, ast.For)]
+    problems = []
+    if len(loops) != 1 or A.unparse(loops[0].iter) != 'self.sym_keys()':
+      problems.append('does not iterate self.sym_keys()')
+    else:
+      lp = loops[0]
+      kv = A.assigned_names(lp.target)
+      ys = [n for n in ast.walk(lp) if isinstance(n, ast.Yield)]
+      if len(ys) != 1 or any(isinstance(n, (ast.If, ast.Break, ast.Continue, ast.Return)) for n in ast.walk(lp)):
+        problems.append('yields conditionally / more than once per key')
+      else:
+        y = A.unparse(ys[0].value)
+        k = kv[0] if kv else '?'
+        want = f'self._sym_getattr({k})' if name == 'sym_values' else f'({k}, self._sym_getattr({k}))'
+        if y != want:
+          problems.append(f'yields `{y}`, not `{want}`')
+    ctx.ob('C02.f', f.fq, not problems, f'Dict.{name} yields exactly one entry per key of sym_keys(), looked up under that key',
+           f.loc, '; '.join(problems))
+  # sym_keys: every stored key exactly once
+  f = idx.lookup_method(S.DICT, 'sym_keys')
+  g = C.cfg_of(f.node)
+  problems = []
+  raw_iters = [n for n in g.nodes if n.kind == 'iter' and A.unparse(n.ast.iter) == 'super().__iter__()']
+  if not raw_iters:
+    problems.append('never iterates the stored keys')
+  # a key yielded from the schema order is recorded, and the remainder loop skips recorded keys
+  ys = [n for n in ast.walk(f.node) if isinstance(n, ast.Yield)]
+  seen_sets = {nm for n in ast.walk(f.node) if isinstance(n, ast.Assign) and isinstance(n.value, ast.Call)
+               and A.call_name(n.value) == 'set' and not n.value.args for nm in A.assigned_names(n.targets[0])}
+  raw_targets = {nm for n in raw_iters for nm in A.assigned_names(n.ast.target)}
+  for y in ys:
+    t = A.unparse(y.value)
+    if t in raw_targets:
+      continue
+    # schema-ordered yield: must be recorded in the traversed set right after
+    par = [s_ for s_ in ast.walk(f.node) if isinstance(s_, (ast.If, ast.For)) and any(
+        isinstance(b_, ast.Expr) and b_.value is y for b_ in getattr(s_, 'body', []))]
+    rec = any(isinstance(b_, ast.Expr) and isinstance(b_.value, ast.Call)
+              and any(A.unparse(b_.value) == f'{sv}.add({t})' for sv in seen_sets)
+              for s_ in par for b_ in s_.body)
+    if not rec:
+      problems.append(f'key `{t}` yielded from the schema order is not recorded as traversed (it is yielded again later)')
+  txt = A.unparse(f.node, 5000)
+  if ys and len(ys) > 1:
+    skips = any(isinstance(n, ast.Compare) and len(n.ops) == 1 and isinstance(n.ops[0], ast.NotIn)
+                and isinstance(n.comparators[0], ast.Name) and n.comparators[0].id in seen_sets
+                for n in ast.walk(f.node))
+    if not skips:
+      problems.append('the remainder loop does not skip keys already yielded')
+    if 'len(traversed) < len(self)' not in txt and 'len(traversed) != len(self)' not in txt:
+      # without the shortcut every stored key is still visited: fine
+      pass
+  ctx.ob('C02.f', f.fq, not problems, 'sym_keys yields every stored key exactly once (declared keys first, then the rest)',
+         f.loc, '; '.join(problems))
+  # List iteration: one element per index
+  f = idx.lookup_method(S.LIST, '__iter__')
+  loops = [n for n in ast.walk(f.node) if isinstance(n, ast.For)]
+  ok = len(loops) == 1 and A.unparse(loops[0].iter) == 'range(len(self))' and any(
+      isinstance(n, ast.Yield) and A.unparse(n.value) == f'self.sym_inferred({A.unparse(loops[0].target)})' for n in ast.walk(loops[0]))
+  ctx.ob('C02.f', f.fq, ok, 'List iteration yields the element of every index 0..len-1 in order', f.loc,
+         'List.__iter__ no longer visits range(len(self)) in order')
+
+
 def run(ctx):
   ctx.consult(*FILES)
   rule_a(ctx)
@@ -252,4 +339,5 @@ def run(ctx):
   rule_c(ctx)
   rule_d(ctx)
   rule_e(ctx)
+  rule_f(ctx)
   ctx.assume('contents, order, return values and slice assignment semantics are not decided (differential)')
